@@ -96,18 +96,19 @@ Proof. apply (forall_stmts_sound p fn fuel). Qed.
 
 Lemma wf_module_parts m :
   wf_module m = [] ->
-  chk_handles m = [] /\ chk_abstract m = [] /\ chk_unique m = [] /\
+  chk_handles m = [] /\ chk_abstract m = [] /\ chk_unique m = [] /\ chk_global_types m = [] /\
   check_idx (chk_func m) 0 (all_funcs m) = [] /\ check_idx (chk_entry m) 0 (m_entry_points m) = [].
 Proof. unfold wf_module. intros H. split_nil H. repeat split; assumption. Qed.
 
 Lemma chk_handles_parts m :
   chk_handles m = [] ->
   chk_types m = [] /\ chk_constants m = [] /\ chk_globals m = [] /\ chk_overrides m = [] /\
-  chk_exprs m mod_fn 0 0 (m_global_exprs m) = [] /\ check_idx (chk_func_handles m) 0 (all_funcs m) = [].
+  chk_exprs "handles.global_expr_backward" "handles.global_expr_operand_range" m mod_fn 0 0 (m_global_exprs m) = [] /\
+  check_idx (chk_func_handles m) 0 (all_funcs m) = [].
 Proof. unfold chk_handles. intros H. split_nil H. repeat split; assumption. Qed.
 
-Lemma chk_exprs_backward m fn na nl es :
-  chk_exprs m fn na nl es = [] ->
+Lemma chk_exprs_backward c1 c2 m fn na nl es :
+  chk_exprs c1 c2 m fn na nl es = [] ->
   forall i e, nth_error es i = Some e -> Forall (fun r => r < i) (expr_refs e) /\ expr_operands_ok m na nl e = true.
 Proof.
   unfold chk_exprs. intros H i e Hn. pose proof (check_idx_nil _ _ _ H i e Hn) as Hi. cbn in Hi.
@@ -140,7 +141,7 @@ Proof.
   destruct Hh as (Ht & _ & _ & _ & Hg & Hf). split; [| split].
   - intros i t Hn. unfold chk_types in Ht. pose proof (check_idx_nil _ _ _ Ht i t Hn) as Hi. cbn in Hi.
     apply guard_nil in Hi. now apply all_lt_Forall.
-  - intros i e Hn. now apply (chk_exprs_backward _ _ _ _ _ Hg i e Hn).
+  - intros i e Hn. now apply (chk_exprs_backward _ _ _ _ _ _ _ Hg i e Hn).
   - intros fn f Hn. pose proof (check_idx_nil _ _ _ Hf fn f Hn) as Hi. cbn in Hi. unfold chk_func_handles in Hi.
     split_nil Hi. split; [| split].
     + intros i e He. eapply chk_exprs_backward; eauto.
@@ -180,7 +181,7 @@ Qed.
 Theorem types_unique_sound_thm : forall m, wf_module m = [] ->
   forall i j t, nth_error (m_types m) i = Some t -> nth_error (m_types m) j = Some t -> comparable t = true -> i = j.
 Proof.
-  intros m H i j t Hi Hj Hc. apply wf_module_parts in H. destruct H as (_ & _ & Hu & _). unfold chk_unique in Hu.
+  intros m H i j t Hi Hj Hc. apply wf_module_parts in H. destruct H as (_ & _ & Hu & _ & _). unfold chk_unique in Hu.
   destruct (Nat.lt_trichotomy i j) as [Hlt | [-> | Hlt]]; [| reflexivity |].
   - destruct (chk_unique_from_sound _ _ _ Hu j t Hj Hc) as [_ Hd]. exfalso. now apply (Hd i t Hlt Hi).
   - destruct (chk_unique_from_sound _ _ _ Hu i t Hi Hc) as [_ Hd]. exfalso. now apply (Hd j t Hlt Hj).
@@ -237,7 +238,7 @@ Corollary infer_depends_on_prefix_thm : forall m f i, i < List.length (f_exprs f
   = infer m f i.
 Proof.
   intros m f i Hi. symmetry.
-  apply (infer_stable_under_append_thm m _ f (skipn (S i) (f_exprs f))); cbn; try reflexivity.
-  - now rewrite firstn_skipn.
+  apply (infer_stable_under_append_thm m _ f (skipn (S i) (f_exprs f))); cbn [f_args f_locals f_expr_types f_exprs]; try reflexivity.
+  - symmetry. apply firstn_skipn.
   - rewrite firstn_length. lia.
 Qed.
